@@ -88,6 +88,11 @@ CHECKS.update({
             'tearDown and the time the executor proceeds; all interleavings (<=3 / <=4 preemptions) of start(), kill() and the thread on a real KillableThread subclass judged against KillBeforeStart / '
             'KillAfterBodyNoEffect / ConfinedToBody; late effects of an abandoned body probed',
             'trusted: TLC, vf/sched.py virtual time and async-exception shim (delivery at scheduling points only)', 'DESIGN.md 5/C12'),
+    'C04': ('TLA+ (PlusCal) spec AbortHandshake.tla (AtMostOneBody, NoStartAfterAbortReturned, NoBodyAfterFinalize, AbortedWins, TeardownAllRun, ExecReturns, AbortsReturn) checked by TLC; whole aborted runs of the real executor explored under a deterministic scheduler with simulated SIGINT and judged against the same formulas',
+            'TLC: executor / phase threads / two aborters at flag-and-lock granularity, safety + liveness; the originally pinned protocol violates NoStartAfterAbortReturned in the same model. Real code: 5 programs '
+            '(sequence, group+plug, repeat, subtest, test_start) x abort source (Test.handle_sig_int run on the execute() thread at a scheduler-chosen point, or another thread) x 1-2 aborts; DFS with <=1 preemption '
+            '(capped) + seeded random schedules; each run judged on return, body overlap, late starts, outcome, callbacks, teardown, clean-up',
+            'trusted: TLC, vf/sched.py (signal delivery and preemption at synchronisation operations, flag reads and body points only), the event-log judge in checks/c04.py', 'DESIGN.md 5/C04'),
 })
 
 NOT_APPLICABLE = {
